@@ -289,7 +289,11 @@ func mixCase(r *rand.Rand, s string) string {
 }
 
 var semverIdents = []string{"0", "1", "2", "9", "10", "11", "123456789012345678", "alpha", "beta", "rc", "a", "b", "x", "Alpha", "RC", "BETA",
-	"a-b", "-5", "-", "--", "1a", "a1", "0a", "rc1", "rc-1", "next", "pre", "dev", "SNAPSHOT", "snapshot", "0-0", "-0", "x86", "X"}
+	"a-b", "-5", "-", "--", "1a", "a1", "0a", "rc1", "rc-1", "next", "pre", "dev", "SNAPSHOT", "snapshot", "0-0", "-0", "x86", "X",
+	// numeric identifiers beyond 63 / 64 bits with different digit counts, and alphanumeric identifiers that START with
+	// a digit and sort bytewise between them (int order, decimal order and byte order must not be mixed)
+	"9999999999999999999", "20240115123456789012", "18446744073709551616", "100000000000000000000", "9223372036854775808", "99999999999999999999999",
+	"5-g1a2b3c4", "1e1", "9z", "2x", "10a", "1-1", "5-", "0x10"}
 
 // SemverPre draws 1..n dot-separated pre-release identifiers.
 func SemverPre(r *rand.Rand, max int) string {
@@ -635,7 +639,7 @@ func GoPseudo(r *rand.Rand) string {
 	case 0:
 		return fmt.Sprintf("v%s.0.0-%s-%s", pick(r, "0", "1", "2"), ts, h)
 	case 1:
-		return fmt.Sprintf("v%s.%s.%s-%s.0.%s-%s", pick(r, "0", "1", "2"), pick(r, "0", "1", "2"), pick(r, "0", "1", "3"), pick(r, "pre", "rc1", "alpha", "beta"), ts, h)
+		return fmt.Sprintf("v%s.%s.%s-%s.0.%s-%s", pick(r, "0", "1", "2"), pick(r, "0", "1", "2"), pick(r, "0", "1", "3"), pick(r, "pre", "rc1", "alpha", "beta", "5", "10", "0", "1", "9", "11", "0.0", "2", "x", "rc.1"), ts, h)
 	default:
 		return fmt.Sprintf("v%s.%s.%s-0.%s-%s", pick(r, "0", "1", "2"), pick(r, "0", "1", "2"), pick(r, "1", "2", "3"), ts, h)
 	}
@@ -1151,6 +1155,28 @@ func Cluster(eco string, r *rand.Rand) []string {
 	// regex-derived family (regexgen.go): strings sampled from the ecosystem's own regular expressions and their relatives
 	if chance(r, 1, 5) || (len(newRegexAST[eco]) > 0 && chance(r, 1, 2)) {
 		out = append(out, RegexFamily(eco, r)...)
+	}
+	// identifier-kind family (SemVer-style ecosystems): the same base and the same leading identifiers, the deciding
+	// identifier running through every KIND - small and huge numbers of different digit counts, alphanumerics that start
+	// with a digit, letters, hyphens - so that every pair of kinds meets
+	switch eco {
+	case "semver", "npm", "cargo", "hex", "golang", "nuget", "conan", "composer", "github":
+		if chance(r, 1, 5) {
+			b3 := base
+			if n := strings.Count(base, "."); n < 2 {
+				b3 = base + strings.Repeat(".0", 2-n)
+			}
+			if eco == "golang" {
+				b3 = "v" + strings.TrimPrefix(b3, "v")
+			}
+			lead := []string{"-", "-rc.", "-0.", "-alpha.1."}[r.IntN(4)]
+			for _, id := range []string{"1", "9", "10", "9999999999999999999", "20240115123456789012", "18446744073709551616", "100000000000000000000",
+				"5-g1a2b3c4", "1e1", "9z", "2x", "10a", "a", "rc", "z", "-", "0a", "99999999999999999999999"} {
+				if chance(r, 2, 3) {
+					out = append(out, b3+lead+id)
+				}
+			}
+		}
 	}
 	// maven: the unique snapshots of this base as a repository lists them, next to the literal -SNAPSHOT
 	if eco == "maven" && chance(r, 1, 5) {
